@@ -327,7 +327,9 @@ def run(tier, seed, replay):
                 want[2 ** k] = 1 / math.sqrt(n)
             chk("w-state", np.abs(w.full().ravel() - want).max() < 1e-12 and w.dims[0] == [2] * n, f"w_state({n}) wrong")
     # ------------------------------------------------------------------ excitation-number restricted
-    for dims, exc in (([2, 2], 1), ([3, 2], 2), ([2, 2, 2], 2), ([3, 3], 1), ([4], 2), ([2, 3, 2], 3), ([1, 2], 1)):
+    for dims, exc in (([2, 2], 1), ([3, 2], 2), ([2, 2, 2], 2), ([3, 3], 1), ([4], 2), ([2, 3, 2], 3), ([1, 2], 1),
+                      # the bound 0 (vacuum only) and bounds at and above the capacity of the modes
+                      ([2, 2], 0), ([4], 0), ([3, 2, 2], 0), ([2, 3], 3), ([2, 3], 10), ([3], 2), ([3], 5)):
         res = guarded(f"enr_destroy({dims},{exc})", lambda: (qutip.enr_destroy(dims, exc), qutip.enr_state_dictionaries(dims, exc), qutip.enr_identity(dims, exc)))
         if res is None:
             continue
